@@ -86,15 +86,15 @@ func runC18(c *Ctx) {
 	}
 	idiom := "reads the field value (a map / queue reference) to pass it to cancel(), which takes the lock before touching any element — upstream go-ethereum idiom"
 	runGuardedBy(c, GuardSpec{Pkg: dlPkg, Type: "queue", Mutex: "lock", Guarded: guarded, Exempt: map[string]string{
-		"(you/downloader.queue).CancelHeaders#headerTaskQueue":  idiom,
-		"(you/downloader.queue).CancelHeaders#headerPendPool":   idiom,
-		"(you/downloader.queue).CancelBodies#blockTaskQueue":    idiom,
-		"(you/downloader.queue).CancelBodies#blockPendPool":     idiom,
-		"(you/downloader.queue).CancelReceipts#receiptTaskQueue": idiom,
-		"(you/downloader.queue).CancelReceipts#receiptPendPool":  idiom,
+		"(you/downloader.queue).CancelHeaders#headerTaskQueue":        idiom,
+		"(you/downloader.queue).CancelHeaders#headerPendPool":         idiom,
+		"(you/downloader.queue).CancelBodies#blockTaskQueue":          idiom,
+		"(you/downloader.queue).CancelBodies#blockPendPool":           idiom,
+		"(you/downloader.queue).CancelReceipts#receiptTaskQueue":      idiom,
+		"(you/downloader.queue).CancelReceipts#receiptPendPool":       idiom,
 		"(you/downloader.Downloader).fillHeaderSkeleton#headerContCh": "reads the channel value created once by newQueue (never reassigned) to wait on it",
-		"(you/downloader.Downloader).fetchHeaders#headerContCh":      "reads the channel value created once by newQueue (never reassigned)",
-		"(you/downloader.Downloader).fetchHeaders#mode":              "mode is set by Prepare before the fetchers start and only read afterwards",
+		"(you/downloader.Downloader).fetchHeaders#headerContCh":       "reads the channel value created once by newQueue (never reassigned)",
+		"(you/downloader.Downloader).fetchHeaders#mode":               "mode is set by Prepare before the fetchers start and only read afterwards",
 	}})
 
 	// ------------------------------------------------------------ Y3
